@@ -34,20 +34,27 @@ ChainBad(e, r) ==
        IF ~w.ok THEN (IF r.c = "invalid_path" THEN {} ELSE {"rejects"})
        ELSE IF r.c # "ok" THEN {"total"} ELSE IF r.path = w.p THEN {} ELSE {"chain"}
 
+\* what was judged (vacuity guard): TLC registers, single worker; totals are printed with DONE
+CN == [joins |-> 501, chains |-> 502, rejected |-> 503, resolved |-> 504, with_dotdot_above_root |-> 505]
+Bump(i) == TLCSet(i, TLCGet(i) + 1)
+BumpIf(c, i) == IF c THEN Bump(i) ELSE TRUE
+Counters == [x \in DOMAIN CN |-> TLCGet(CN[x])]
 Next ==
   /\ l <= Len(Rec)
   /\ LET e == Rec[l]
          bs == IF e.ev = "join" THEN JoinBad(e.base, e.arg, e.sync) ELSE ChainBad(e, e.sync)
          ba == IF e.ev = "join" THEN JoinBad(e.base, e.arg, e.async) ELSE ChainBad(e, e.async) IN
-     IF bs \cup ba = {} THEN TRUE
-     ELSE Report("VIOL", [l |-> l, seg |-> l, secondary |-> FALSE, conjs |-> bs \cup ba,
+     /\ BumpIf(e.ev = "join", CN.joins) /\ BumpIf(e.ev # "join", CN.chains)
+     /\ BumpIf(e.ev = "join" /\ Rejects(e.arg), CN.rejected) /\ BumpIf(e.ev = "join" /\ ~Rejects(e.arg), CN.resolved)
+     /\ (IF bs \cup ba = {} THEN TRUE
+          ELSE Report("VIOL", [l |-> l, seg |-> l, secondary |-> FALSE, conjs |-> bs \cup ba,
                           sig |-> [conj |-> CHOOSE c \in bs \cup ba : TRUE, op |-> e.ev, kind |-> "join", cfg |-> "join",
                                    sync |-> bs, async |-> ba,
-                                   shape |-> IF e.ev = "join" THEN [abs |-> (e.arg # <<>> /\ e.arg[1] = "/"), updepth |-> Len(e.base), rejects |-> Rejects(e.arg)] ELSE [abs |-> FALSE, updepth |-> 0, rejects |-> FALSE]]])
+                                   shape |-> IF e.ev = "join" THEN [abs |-> (e.arg # <<>> /\ e.arg[1] = "/"), updepth |-> Len(e.base), rejects |-> Rejects(e.arg)] ELSE [abs |-> FALSE, updepth |-> 0, rejects |-> FALSE]]]))
   /\ l' = l + 1
-Init == l = 1
+Init == l = 1 /\ \A x \in DOMAIN CN : TLCSet(CN[x], 0)
 TrSpec == Init /\ [][Next]_l
 Consumed ==
-  IF TLCGet("stats").diameter - 1 = Len(Rec) THEN Report("DONE", [events |-> Len(Rec)])
+  IF TLCGet("stats").diameter - 1 = Len(Rec) THEN Report("DONE", [events |-> Len(Rec), judged |-> Counters])
   ELSE Report("STUCK", [at |-> TLCGet("stats").diameter, of |-> Len(Rec)]) /\ FALSE
 =============================================================================
